@@ -203,6 +203,46 @@ PolicyJudgedIn(robust, kind, w, targets) ==
   IF kind \in {"upgrade", "min"} /\ robust
   THEN Cardinality({j \in DOMAIN targets : kind = "min" => ReuseApplies(w, targets[j])}) ELSE 0
 
+(* The policy, target by target, for a resolver that is given its targets one after the other
+   (marks[k] = length of the plan before target k, done = number of targets it resolved).
+   Independently of Robust there is a situation in which the choice is forced: the candidate the
+   strategy tries first is READY when the plan so far does not satisfy the target yet, every
+   requirement of the candidate is satisfied by packages that are ALREADY IN THE PLAN (nothing
+   has to be searched for), it carries no blockers, no blocker anywhere matches it, and its slot
+   is free or held by an installed package the plan has not touched.  A ready first candidate
+   must be taken.                                                                             *)
+InPlan(w, ops) == {p \in Final(w, ops) : \E j \in DOMAIN ops : ops[j].p = p.id}
+Ready(w, ops, h, t) ==
+  LET F == Final(w, ops)  PL == InPlan(w, ops) IN
+  /\ ~SatAtom(t, PL)
+  /\ h \notin PL /\ (h.repo = "vdb" => h \in F)
+  /\ BlockAtoms(h) = {}
+  /\ \A a \in ReqAtoms(h) : SatAtom(a, PL)
+  /\ \A p \in w : \A b \in BlockAtoms(p) : ~Matches(b, h)
+  /\ \A f \in F : (f # h /\ SameSlot(f, h)) => (f.repo = "vdb" /\ f \notin PL /\ h.repo # "vdb")
+  /\ ~SlotMoved(w) /\ ~IsBlocker(t)
+FirstCandidates(kind, w, t) ==
+  IF kind = "upgrade"
+  THEN LET B == Best(w, t)  BV == {p \in B : p.repo = "vdb"} IN IF BV # {} THEN BV ELSE B
+  ELSE LET I == {p \in Vdb(w) : Matches(t, p)} IN {p \in I : p.ver = MaxVer(I)}      \* kind = "min"
+ReadyAt(kind, w, targets, marks, ops, k) ==
+  LET HS == FirstCandidates(kind, w, targets[k]) IN
+  /\ kind \in {"upgrade", "min"} /\ marks[k] <= Len(ops)
+  /\ Cands(w, targets[k]) # {}
+  /\ (kind = "min" => ReuseApplies(w, targets[k]))
+  /\ HS # {} /\ \A h \in HS : Ready(w, SubSeq(ops, 1, marks[k]), h, targets[k])
+ReadyViolations(kind, w, targets, marks, done, ops) ==
+  {V(IF kind = "upgrade" THEN "Upgrade_ready" ELSE "Reuse_ready", "-", targets[k].key, "-") :
+     k \in {j \in DOMAIN marks :
+              /\ j <= Len(targets) /\ ReadyAt(kind, w, targets, marks, ops, j)
+              /\ LET after == IF j < Len(marks) /\ marks[j + 1] <= Len(ops) THEN SubSeq(ops, 1, marks[j + 1]) ELSE ops
+                     F == Final(w, after)
+                 IN \/ j > done
+                    \/ (kind = "upgrade" /\ ~UpgradeOk(w, targets[j], F))
+                    \/ (kind = "min" /\ ~ReuseOk(w, targets[j], F))}}
+ReadyJudged(kind, w, targets, marks, ops) ==
+  Cardinality({j \in DOMAIN marks : j <= Len(targets) /\ ReadyAt(kind, w, targets, marks, ops, j)})
+
 (* ------------------------------------------------------------------ *)
 (* JSON form (sequences instead of sets) <-> the sets used above       *)
 (*   pkg  {id,key,ver,slot,repo, depend:[item..], bdepend, ...}        *)
